@@ -132,6 +132,9 @@ class PermutationReciprocalTransformer(BaseReciprocalTransformer):
         for u in perm_keys:
             perm[u] = lin[perm[u]]
         self.permutation_ = perm
+        if hasattr(self, "knn_"):
+            # the nearest neighbour index belongs to the previous permutation
+            del self.knn_
 
     def _check_is_fitted(self):
         if not hasattr(self, "permutation_"):
